@@ -11,9 +11,9 @@ cp $wt/demo.py $out/demo.py
 cd $wt
 echo "== tests with change: $(PYTHONPATH=$wt /venv/bin/python -m pytest -q -x -p no:cacheprovider --timeout=900 -o addopts= tests 2>&1 | tail -1)"
 PYTHONPATH=$wt timeout 120 /venv/bin/python demo.py >/tmp/seed_demo_with.txt 2>&1; echo "== demo with change: exit $? :: $(tail -1 /tmp/seed_demo_with.txt | cut -c1-160)"
-git stash push -q -- mido
+git apply -R patch.diff
 PYTHONPATH=$wt timeout 120 /venv/bin/python demo.py >/tmp/seed_demo_without.txt 2>&1; echo "== demo without change: exit $? :: $(tail -1 /tmp/seed_demo_without.txt | cut -c1-120)"
-git stash pop -q
+git apply patch.diff
 d=$(mktemp -d /tmp/seval.XXXXXX)
 trap 'rm -rf "$d"' EXIT
 rsync -a --exclude .git --exclude __pycache__ /repo/ "$d/repo/"
